@@ -13,7 +13,8 @@ RULE = ("one run = a small-domain program (random scalar fields of width <= 4, n
         "the feasible set of every random field is obtained evaluator-free by pin-probing field == v "
         "for every v of its type. Oracle: every feasible v lies in the captured ranges; a field no "
         "constraint mentions has the full type range. Non-trivial = a judged call where some field's "
-        "captured range is a proper subset of its type; distinct = (program shape, op 3-grams).")
+        "captured range is a proper subset of its type; distinct = (program shape, op 3-grams)."
+        " randomize_with calls are judged too (feasibility probes carry the inline block); relational bounds computed from non-random fields; dynamic blocks referenced below inline if/implies.")
 REAL = ["pyvsc (all of src/vsc)", "PyBoolector"]
 STUB = ["user code (generated)", "stdout (sink)"]
 ASSUMPTIONS = ["the hook observes VariableBoundVisitor.bound_m immediately before the solve; it never "
